@@ -1042,6 +1042,8 @@ class Interp:
         if isinstance(a, VStr) and isinstance(b, VStr):
             if isinstance(op, ast.Add):
                 return VStr(z3.Concat(a.t, b.t))
+        if isinstance(a, (VStr, VSeq)) and self.is_intlike(b) and isinstance(op, ast.Mult):
+            self.alloc_obligation(self.as_int(b) * (1 if isinstance(a, VStr) else z3.Length(a.t)), fr, node, 'seq * n')
         if isinstance(a, VStr) and self.is_intlike(b) and isinstance(op, ast.Mult):
             return VStr(self.call_spec('str_repeat', a, VInt(self.as_int(b))).t)
         if isinstance(a, VSeq) and self.is_intlike(b) and isinstance(op, ast.Mult):
@@ -1049,6 +1051,18 @@ class Interp:
             return VSeq(r.t, a.kind)
         if isinstance(a, (VTuple, VList)) and type(a) is type(b) and isinstance(op, ast.Add):
             return type(a)(a.items + b.items)
+        if isinstance(op, ast.Mult) and ((isinstance(a, VList) and self.is_intlike(b)) or (isinstance(b, VList) and self.is_intlike(a))):
+            lst, cnt = (a, b) if isinstance(a, VList) else (b, a)
+            n_ = z3.simplify(self.as_int(cnt))
+            if is_int_const(n_) and n_.as_long() <= 64:
+                return VList(lst.items * max(n_.as_long(), 0))
+            if fr.spec:
+                raise OutOfSubset('list repetition in a clause')
+            # allocation obligation (C08): a container sized by a number must be bounded by the size of the input
+            # (the declared alloc_bound of the contract, or the decoder's / data's length)
+            self.prove(n_ * len(lst.items) <= self.alloc_bound(fr), 'alloc', 'alloc.bounded(list * n)',
+                       getattr(node, 'lineno', 0))
+            return VAbsList('list')
         if isinstance(a, VStr) and isinstance(op, ast.Mod):
             return VStr(self.path.fresh_str('fmt'))
         if not fr.spec and isinstance(op, (ast.Add, ast.Sub, ast.Mult)) and \
@@ -1992,6 +2006,31 @@ class Interp:
         raise PathEnd()
 
     # ----------------------------------------------------------------- obligations
+    def alloc_obligation(self, size, fr, node, what):
+        """C08: in the decoders (contracts tagged C08) a buffer whose size is a computed number must be bounded by the
+        size of the input"""
+        c = self.current_contract
+        if fr.spec or c is None or 'C08' not in (c.props or ()) or fr.func is not self.current_target:
+            return
+        size = z3.simplify(size)
+        if is_int_const(size):
+            return
+        self.prove(size <= self.alloc_bound(fr), 'alloc', 'alloc.bounded(%s)' % what, getattr(node, 'lineno', 0))
+
+    def alloc_bound(self, fr):
+        """the input-size measure allocations are compared with: alloc_bound(expr) of the contract, else the total
+        number of bits of a `decoder` parameter, else 8 * len(data) -- plus a constant"""
+        c = self.current_contract
+        sf = self.spec_frame(fr)
+        if c is not None and getattr(c, 'alloc_bound', None) is not None:
+            return self.as_int(self.ev(c.alloc_bound, sf))
+        for cand in ('decoder.total_number_of_bits', 'self.total_number_of_bits', '8 * len(data)', '8 * len(encoded)'):
+            try:
+                return self.as_int(self.ev(ast.parse(cand, mode='eval').body, sf)) + 64
+            except Exception:
+                continue
+        raise OutOfSubset('allocation of symbolic size without an input-size measure (alloc_bound)')
+
     def prove(self, goal, kind, name, line):
         if isinstance(goal, bool):
             goal = z3.BoolVal(goal)
